@@ -88,9 +88,9 @@ namespace ip {
 		}
 		if (m_accept_handler2)
 		{
-			post(m_io_service, [&, h = std::exchange(m_accept_handler2, nullptr)] () mutable {
+			post(m_io_service, [ios = &m_io_service, h = std::exchange(m_accept_handler2, nullptr)] () mutable {
 				h(boost::system::error_code(error::operation_aborted)
-					, ip::tcp::socket(m_io_service));
+					, ip::tcp::socket(*ios));
 				});
 		}
 	}
@@ -118,9 +118,9 @@ namespace ip {
 		{
 			try
 			{
-				post(m_io_service, [&, h = std::exchange(m_accept_handler2, nullptr)] () mutable {
+				post(m_io_service, [ios = &m_io_service, h = std::exchange(m_accept_handler2, nullptr)] () mutable {
 					h(boost::system::error_code(error::operation_aborted)
-						, ip::tcp::socket(m_io_service));
+						, ip::tcp::socket(*ios));
 				});
 			}
 			catch (std::bad_alloc const&)
@@ -162,9 +162,9 @@ namespace ip {
 		{
 			m_accept_into = nullptr;
 			m_remote_endpoint = nullptr;
-			post(m_io_service, [&, h = std::exchange(m_accept_handler2, nullptr)] () mutable {
+			post(m_io_service, [ios = &m_io_service, h = std::exchange(m_accept_handler2, nullptr)] () mutable {
 				h(boost::system::error_code(error::operation_aborted)
-					, ip::tcp::socket(m_io_service));
+					, ip::tcp::socket(*ios));
 			});
 		}
 		m_accept_handler = std::move(h);
@@ -191,9 +191,9 @@ namespace ip {
 		}
 		if (m_accept_handler2)
 		{
-			post(m_io_service, [&, h = std::exchange(m_accept_handler2, nullptr)] () mutable {
+			post(m_io_service, [ios = &m_io_service, h = std::exchange(m_accept_handler2, nullptr)] () mutable {
 				h(boost::system::error_code(error::operation_aborted)
-					, ip::tcp::socket(m_io_service));
+					, ip::tcp::socket(*ios));
 			});
 		}
 		m_accept_handler = std::move(h);
@@ -215,9 +215,9 @@ namespace ip {
 		if (m_accept_handler2)
 		{
 			m_accept_into = nullptr;
-			post(m_io_service, [&, h = std::exchange(m_accept_handler2, nullptr)] () mutable {
+			post(m_io_service, [ios = &m_io_service, h = std::exchange(m_accept_handler2, nullptr)] () mutable {
 				h(boost::system::error_code(error::operation_aborted)
-					, ip::tcp::socket(m_io_service));
+					, ip::tcp::socket(*ios));
 			});
 		}
 		m_new_socket.emplace(m_io_service);
@@ -254,9 +254,9 @@ namespace ip {
 				{
 					m_accept_into = nullptr;
 					m_remote_endpoint = nullptr;
-					post(m_io_service, [&, h = std::exchange(m_accept_handler2, nullptr)] () mutable {
+					post(m_io_service, [ios = &m_io_service, h = std::exchange(m_accept_handler2, nullptr)] () mutable {
 						h(boost::system::error_code(error::operation_aborted)
-							, ip::tcp::socket(m_io_service));
+							, ip::tcp::socket(*ios));
 					});
 				}
 				return;
@@ -302,9 +302,9 @@ namespace ip {
 			{
 				m_accept_into = nullptr;
 				m_remote_endpoint = nullptr;
-				post(m_io_service, [&, h = std::exchange(m_accept_handler2, nullptr)] () mutable {
+				post(m_io_service, [ios = &m_io_service, h = std::exchange(m_accept_handler2, nullptr)] () mutable {
 					h(boost::system::error_code(error::operation_aborted)
-						, ip::tcp::socket(m_io_service));
+						, ip::tcp::socket(*ios));
 				});
 			}
 		}
